@@ -13,6 +13,7 @@ import (
 	"github.com/emitter-io/emitter/verif/drivers/codec"
 	vcrdt "github.com/emitter-io/emitter/verif/drivers/crdt"
 	"github.com/emitter-io/emitter/verif/drivers/durable"
+	"github.com/emitter-io/emitter/verif/drivers/gossip"
 	"github.com/emitter-io/emitter/verif/drivers/history"
 	"github.com/emitter-io/emitter/verif/drivers/mqttc"
 	"github.com/emitter-io/emitter/verif/drivers/peerq"
@@ -26,6 +27,7 @@ var checks = map[string]func(*core.Ctx){
 	"C02": session.RunC02,
 	"C03": authz.RunC03,
 	"C04": vcrdt.Run,
+	"C05": gossip.Run,
 	"C06": history.Run,
 	"C07": session.RunC07,
 	"C08": session.RunC08,
@@ -33,6 +35,7 @@ var checks = map[string]func(*core.Ctx){
 	"C10": wq.RunC10,
 	"C11": authz.RunC11,
 	"C12": authz.RunC12,
+	"C13": gossip.RunC13,
 	"C14": ban.Run,
 	"C15": durable.Run,
 	"C16": mqttc.Run,
